@@ -61,6 +61,15 @@ Class NumLaws (N : NumOps) := {
   float_rk : forall x, ok x -> ok (nfloat x) /\ rk (nfloat x) == rk x;
 }.
 
+
+(* The few facts about arithmetic (not order) that some theorems need; all hold
+   for IEEE binary64: |b - a| and |a - b| are the same value, x / 1 is x. *)
+Class ArithLaws (N : NumOps) (L : NumLaws N) := {
+  abs_sub_sym : forall a b c,
+      nle (nabs (nsub b a)) c = nle (nabs (nsub a b)) c;
+  div_one : forall x, ok x -> ok (ndiv x n1) /\ rk (ndiv x n1) == rk x;
+}.
+
 Section Derived.
   Context {N : NumOps} {L : NumLaws N}.
 
